@@ -113,8 +113,13 @@ def run():
     ck = Check("C07")
     rng = ck.rng("lattice")
     rows = cover.covering(FACTORS, ck.pick(2, 3), rng)
+    if not ck.quick:
+        for extra in range(4):     # four more independently generated 3-wise arrays (different rows, different seeds)
+            rows += cover.covering(FACTORS, 3, ck.rng("lattice", extra))
     if ck.quick and len(rows) > 24:
         rows = rows[:24]
+    ck.tables["pairwise_coverage"] = cover.coverage(rows, FACTORS, 2)
+    ck.tables["threeway_coverage"] = cover.coverage(rows, FACTORS, 3)
     tasks = [("tvf.checks.c07:traced", dict(cfg=to_cfg(r, ck.subseed("cfg", i))), None) for i, r in enumerate(rows)]
     for i, st, val in farm.run(tasks, timeout=900, progress="C07"):
         cfg = tasks[i][1]["cfg"]
